@@ -56,6 +56,14 @@ KINDS = {
     "overflow-bigint-mul": ([("decl", "bb", "bigint", ("lit", "bigint", BIGMAX), ())], ("decl", "v", None, ("bin", "*", V("bb"), ("bin", "+", V("a"), V("a"))), ())),
     "str-delete-inside-char": ([("decl", "s", None, S("h\u00e9llo"), ())], ("decl", "v", None, ("mcall", V("s"), "delete", [I(0), ("bin", "+", V("a"), I(1))]), ())),
     "str-split-inside-char": ([("decl", "s", None, S("h\u00e9llo"), ())], ("print", ("mcall", V("s"), "split", [("bin", "+", V("a"), I(1))]))),
+    # every index-taking string built-in with a byte index INSIDE a character (2-byte and 4-byte characters, first and later bytes)
+    "str-insert-inside-char": ([("decl", "s", None, S("h\u00e9llo"), ())], ("decl", "v", None, ("mcall", V("s"), "insert", [S("-"), ("bin", "+", V("a"), I(1))]), ())),
+    "str-insert-inside-wide-char": ([("decl", "s", None, S("a\U0001f600b"), ())], ("decl", "v", None, ("mcall", V("s"), "insert", [S("-"), ("bin", "+", V("a"), I(2))]), ())),
+    "str-substring-end-inside-char": ([("decl", "s", None, S("h\u00e9llo"), ())], ("decl", "v", None, ("mcall", V("s"), "substring", [I(0), ("bin", "+", V("a"), I(1))]), ())),
+    "str-substring-start-inside-char": ([("decl", "s", None, S("h\u00e9llo"), ())], ("decl", "v", None, ("mcall", V("s"), "substring", [("bin", "+", V("a"), I(1)), I(4)]), ())),
+    "str-substring-inside-wide-char": ([("decl", "s", None, S("a\U0001f600b"), ())], ("decl", "v", None, ("mcall", V("s"), "substring", [("bin", "+", V("a"), I(2)), ("bin", "+", V("a"), I(2))]), ())),
+    "str-delete-start-inside-char": ([("decl", "s", None, S("h\u00e9llo"), ())], ("decl", "v", None, ("mcall", V("s"), "delete", [("bin", "+", V("a"), I(1)), I(4)]), ())),
+    "str-delete-inside-wide-char": ([("decl", "s", None, S("a\U0001f600b"), ())], ("decl", "v", None, ("mcall", V("s"), "delete", [I(0), ("bin", "+", V("a"), I(3))]), ())),
     "shift-amount": ([], ("decl", "v", None, ("bin", "<<", V("a"), ("bin", "+", V("a"), I(40))), ())),
     "str-substring-range": ([("decl", "s", None, S("abc"), ())], ("decl", "v", None, ("mcall", V("s"), "substring", [I(1), ("bin", "+", V("a"), I(8))]), ())),
     "str-insert-range": ([("decl", "s", None, S("abc"), ())], ("decl", "v", None, ("mcall", V("s"), "insert", [S("x"), ("bin", "+", V("a"), I(8))]), ())),
@@ -69,7 +77,9 @@ KINDS = {
     "list-remove": ([("decl", "l", ("list", "int"), ("list", [I(1)]), ())], ("decl", "v", None, ("mcall", V("l"), "remove", [("bin", "+", V("a"), I(5))]), ())),
 }
 # failures raised INSIDE a built-in method: the innermost entry of the trace is the native frame of that built-in
-NATIVE = {"overflow-abs-min": "GenericAbs", "str-delete-inside-char": "StrDelete", "str-split-inside-char": "StrSplit", "str-substring-range": "StrSubstring",
+NATIVE = {"str-insert-inside-char": "StrInsert", "str-insert-inside-wide-char": "StrInsert", "str-substring-end-inside-char": "StrSubstring", "str-substring-start-inside-char": "StrSubstring",
+          "str-substring-inside-wide-char": "StrSubstring", "str-delete-start-inside-char": "StrDelete", "str-delete-inside-wide-char": "StrDelete",
+          "overflow-abs-min": "GenericAbs", "str-delete-inside-char": "StrDelete", "str-split-inside-char": "StrSplit", "str-substring-range": "StrSubstring",
           "str-insert-range": "StrInsert", "parse-radix": "StrParseIntRadix", "to-byte-conversion": "GenericToByte", "to-int-conversion": "GenericToInt",
           "pow-negative": "GenericPow", "list-remove": "VecRemove"}
 ELEMS = ["F", "C", "M", "CB"]
